@@ -1,6 +1,6 @@
 #!/usr/bin/env python3
 """tools/seed_table.py — prints the markdown table of DESIGN.md section 12 from /verif/seeded/*/meta.json"""
-import json, os, re
+import json, os, re, sys, io
 ROOT = '/verif/seeded'
 rows = []
 for sid in sorted(i for i in os.listdir(ROOT) if not i.startswith('_')):
@@ -22,9 +22,24 @@ for sid in sorted(i for i in os.listdir(ROOT) if not i.startswith('_')):
             if mt and len(obl) < 2:
                 obl.append(mt.group(1).replace('_', ' ', 0))
     rows.append((sid, tgt, ', '.join(f.replace('src/', '') for f in files), verdict, ', '.join(by), '; '.join(obl)[:150], what))
+_buf = io.StringIO()
+_out = sys.stdout
+sys.stdout = _buf
 print('| seed | breaks | file(s) | verdict for the target property | every check that fired | first failing obligation(s) |')
 print('|---|---|---|---|---|---|')
 for r in rows:
     print('| %s | %s | %s | %s | %s | %s |' % r[:6])
 n = len(rows); c = sum(1 for r in rows if r[3] == 'caught'); o = sum(1 for r in rows if r[3].startswith('caught by')); u = sum(1 for r in rows if r[3].startswith('undecided')); m_ = sum(1 for r in rows if r[3] == 'MISSED')
 print('\n%d seeded changes: %d caught by the target property\'s check, %d caught only by another property\'s check, %d undecided (exit 2), %d missed (exit 0).' % (n, c, o, u, m_))
+
+sys.stdout = _out
+text = _buf.getvalue()
+if '--write' in sys.argv:
+    p = '/verif/DESIGN.md'
+    d = open(p).read()
+    a = d.index('<!-- SEED-TABLE-BEGIN -->') + len('<!-- SEED-TABLE-BEGIN -->')
+    b = d.index('<!-- SEED-TABLE-END -->')
+    open(p, 'w').write(d[:a] + '\n' + text + d[b:])
+    print('DESIGN.md section 12 table rewritten (%d rows)' % len(rows))
+else:
+    print(text)
